@@ -111,7 +111,8 @@ func c19Table(allowed []string, event string, positions []string, actionTime int
 		State: &pt.TableState{
 			Status:            pt.TableStateStatus_TableGamePlaying,
 			GameCount:         1,
-			BlindState:        &pt.TableBlindState{Level: 1, Ante: c19Ante, Dealer: c19Dealer, SB: c19SB, BB: c19BB},
+			// the table's live level has moved on since the hand opened: the posted sizes are the hand's own
+			BlindState:        &pt.TableBlindState{Level: 2, Ante: 2 * c19Ante, Dealer: 2 * c19Dealer, SB: 2 * c19SB, BB: 2 * c19BB},
 			PlayerStates:      []*pt.TablePlayerState{{PlayerID: "me", Seat: 0, IsIn: true, IsParticipated: true, Bankroll: 1000}, {PlayerID: "other", Seat: 1, IsIn: true, IsParticipated: true, Bankroll: 1000}},
 			GamePlayerIndexes: []int{0, 1},
 			SeatMap:           []int{0, 1, -1, -1, -1, -1, -1, -1, -1},
@@ -292,6 +293,7 @@ func c19Real(c *h.Ctx) {
 		k         c19Combo
 		delivered int64
 		n         int64
+		wantPay   int64 // the amount posted for this hand (from the hand's own meta), for ante / blind requests
 	}
 	var pending []pend
 	last := map[string]int64{}
@@ -334,8 +336,22 @@ func c19Real(c *h.Ctx) {
 				k.mask |= 1 << i
 			}
 		}
+		want := int64(-1)
+		switch gs.Status.CurrentEvent {
+		case "AnteRequested":
+			want = gs.Meta.Ante
+		case "BlindsRequested":
+			switch {
+			case gs.HasPosition(gp, "sb"):
+				want = gs.Meta.Blind.SB
+			case gs.HasPosition(gp, "bb"):
+				want = gs.Meta.Blind.BB
+			default:
+				want = gs.Meta.Blind.Dealer
+			}
+		}
 		mu.Lock()
-		pending = append(pending, pend{k, h.Mono(), n})
+		pending = append(pending, pend{k, h.Mono(), n, want})
 		mu.Unlock()
 	}
 	a := actor.NewActor()
@@ -359,6 +375,11 @@ func c19Real(c *h.Ctx) {
 	// and no hand state yet
 	time.Sleep(time.Duration(r.Intn(1500)) * time.Microsecond)
 	s.TE.PlayerExtendActionDeadline("", 0)
+	if r.Intn(2) == 0 {
+		// the level changes while the hand runs: automatic payments are still of the size posted for this hand
+		s.TE.UpdateBlind(cfg.Level+1, cfg.Ante*2+1, cfg.Dealer*2, cfg.SB*2+1, cfg.BB*2+1)
+		c.Feature("real:level-raised-mid-hand")
+	}
 	// the harness plays everybody but "me"
 	script := &h.Script{Policy: h.CallStation, MaxWait: 30 * time.Second}
 	script.OnRequest = func(e *h.Ev, kind string, asked []string) []string {
@@ -438,6 +459,10 @@ func c19Real(c *h.Ctx) {
 			return
 		}
 		if exp.act == "pay" {
+			if cl.Chips != q.wantPay {
+				c.Violate("C19/pay-not-the-posted-size", fmt.Sprintf("silent player %s (%s): automatic pay of %d at %s, the amount posted for this hand is %d (positions %v)", me, status, cl.Chips, q.k.event, q.wantPay, q.k.pos), w)
+				return
+			}
 			c.Feature("real:pay")
 		}
 		el := time.Duration(cl.Mono - q.delivered)
@@ -478,7 +503,7 @@ func init() {
 			return map[string]int{"quick": 100, "thorough": 1700}[tier]
 		},
 		RequiredFeatures: func(string) []string {
-			return []string{"decision-table-part-0/8", "decision-table-part-7/8", "real-table:running", "real-table:idle", "real-table:suspended", "real:ready", "real:fold", "real:check", "real:pay"}
+			return []string{"decision-table-part-0/8", "decision-table-part-7/8", "real-table:running", "real-table:idle", "real-table:suspended", "real:ready", "real:fold", "real:check", "real:pay", "real:level-raised-mid-hand"}
 		},
 		Post: func(tier string, rs []*h.CaseResult) map[string]interface{} {
 			var n int64
